@@ -28,6 +28,7 @@ class Hooks(object):
         self.warn = None
         self.fmt = None        # list collecting formatting / str() calls (C20)
         self.float_sqrt = False  # concrete sqrt evaluated in floating point (as the real code does) instead of exactly
+        self.norm_positive = False  # assume ||v|| > 0 for every vector norm taken by the code (e.g. a random direction is never exactly in the span of the old ones)
         self.range_cap = None  # bound on every range() of the loaded code (loop unrolling bound, stated per harness)
 
 
@@ -359,7 +360,10 @@ class _Linalg(object):
     def norm(x, ord=None):
         x = arr.asarr(x)
         if x.ndim == 1 and ord in (None, 2):
-            return arr.vec_norm(x)
+            r = arr.vec_norm(x)
+            if HOOKS.norm_positive and core.CUR is not None and isinstance(r, SFloat):
+                core.CUR.assume(sym.bterm(r > 0))
+            return r
         if x.ndim == 2 and ord in ('fro', None):
             return arr.vec_norm(x.flatten())
         if x.ndim == 2 and ord == 2:
